@@ -450,6 +450,9 @@ impl Ctx {
         G: Fn() -> S + Send + Sync + 'static,
         F: Fn(&T) -> CaseResult + Send + Sync + 'static,
     {
+        if self.violation_already_found(sub) {
+            return;
+        }
         install_quiet_panic_hook();
         let t0 = Instant::now();
         let per = (cases as usize).div_ceil(threads) as u32;
@@ -494,6 +497,8 @@ impl Ctx {
                         rng_algorithm: RngAlgorithm::ChaCha,
                         rng_seed: RngSeed::Fixed(seed),
                         max_shrink_iters: 50_000,
+                        // minimisation budget per worker (not a verdict: the unshrunk case already failed)
+                        max_shrink_time: 120_000,
                         max_global_rejects: 100_000,
                         ..Config::default()
                     };
@@ -720,6 +725,9 @@ impl Ctx {
         T: Serialize + DeserializeOwned + Debug + Clone + Send + Sync + 'static,
         F: Fn(&T) -> CaseResult + Send + Sync + 'static,
     {
+        if self.violation_already_found(sub) {
+            return;
+        }
         install_quiet_panic_hook();
         let t0 = Instant::now();
         let threads = self.threads.max(1).min(cases.len().max(1));
@@ -877,6 +885,17 @@ impl Ctx {
     }
 
     /// Require that a label was seen in at least `min_fraction` of evaluations of a sub-check
+    /// A violation decides the property: later generated sub-checks of the same run are skipped
+    /// (their shrinking alone can take long) - the evidence then lists only what ran.
+    fn violation_already_found(&self, sub: &str) -> bool {
+        if let Some(r) = self.reports.iter().find(|r| r.failure.is_some()) {
+            eprintln!("sub-check {sub} skipped: sub-check {} already reported a violation", r.name);
+            true
+        } else {
+            false
+        }
+    }
+
     pub fn require_label(&mut self, sub: &str, label: &str, min_fraction: f64) {
         if let Some(r) = self.reports.iter().find(|r| r.name == sub) {
             if r.failure.is_some() {
